@@ -20,27 +20,41 @@ Definition has_origin (o: string) : bool :=
   existsb (fun s => String.eqb (s_origin s) o) splice_sites.
 Lemma sites_cover :
   has_origin "field alias" && has_origin "Config.aliases value" && has_origin "TypedDict key"
-  && has_origin "discriminator field" && has_origin "Literal value" = true.
+  && has_origin "discriminator field" && has_origin "Literal value" && has_origin "enum member name" = true.
 Proof. vm_compute. reflexivity. Qed.
 
 (* at every data site of the generator, for every data string, the generated line contains a
    string literal that denotes exactly that string and ends exactly where repr ended *)
 Theorem site_literal st :
-  In st splice_sites ->
+  In st splice_sites -> s_kind st <> KGuardedIdent ->
   forall p d rest, oracle_ok p -> wf_str d ->
   lex_string (site_text (s_kind st) p d ++ codes (s_after st) ++ rest)
     = Some (d, codes (s_after st) ++ rest)
   /\ before_ok (codes (s_before st)) = true.
 Proof.
-  intros Hin p d rest Hp Hw.
+  intros Hin Hg p d rest Hp Hw.
   pose proof (proj1 (forallb_forall _ _) sites_ok st Hin) as Hok.
-  unfold site_ok in Hok. apply andb_true_iff in Hok. destruct Hok as [Hok Ha].
+  unfold site_ok in Hok. apply andb_true_iff in Hok. destruct Hok as [Hok _].
+  apply andb_true_iff in Hok. destruct Hok as [Hok Ha].
   apply andb_true_iff in Hok. destruct Hok as [Hk Hb].
   split; [|exact Hb].
   pose proof (after_ok_ctx _ rest Ha) as Hc.
-  destruct (s_kind st); try discriminate; cbn [site_text].
+  destruct (s_kind st); try discriminate; try congruence; cbn [site_text].
   - apply repr_lex; assumption.
   - apply ascii_lex; assumption.
+Qed.
+
+(* the guarded raw sites: only identifier characters are ever placed there, and the text around
+   them does not continue the name *)
+Theorem site_guarded st :
+  In st splice_sites -> s_kind st = KGuardedIdent ->
+  before_ok (codes (s_before st)) = true /\ after_ident_ok (codes (s_after st)) = true
+  /\ after_ok (codes (s_after st)) = true.
+Proof.
+  intros Hin Hk.
+  pose proof (proj1 (forallb_forall _ _) sites_ok st Hin) as Hok.
+  unfold site_ok in Hok. rewrite Hk in Hok.
+  repeat (apply andb_true_iff in Hok; destruct Hok as [Hok ?]). auto.
 Qed.
 
 (* the same for bytes Literal values (repr of a bytes object carries its own b prefix) *)
@@ -51,6 +65,7 @@ Theorem site_literal_bytes st :
 Proof.
   intros Hin _ d rest Hw.
   pose proof (proj1 (forallb_forall _ _) sites_ok st Hin) as Hok.
-  unfold site_ok in Hok. apply andb_true_iff in Hok. destruct Hok as [_ Ha].
+  unfold site_ok in Hok. apply andb_true_iff in Hok. destruct Hok as [Hok _].
+  apply andb_true_iff in Hok. destruct Hok as [_ Ha].
   apply repr_bytes_lex; [assumption | apply after_ok_ctx, Ha].
 Qed.
